@@ -52,7 +52,10 @@ class World(object):
         return self.ip.call(m, list(args), dict(kw))
 
     def cells(self):
-        v = self.t.attrs.get('values')
+        try:
+            v = self.ip.get_attr(self.t, 'values', None)          # plain attribute or property
+        except Raised:
+            v = None
         if not (isinstance(v, Obj) and v.cls == 'dict'):
             raise Unsupported('the table does not keep its entries in a dict named values')
         out = {}
@@ -588,7 +591,10 @@ def rule_apply(ctx, rule='R14.a'):
                 if v is not before[k]:
                     bad.append('inplace=False changes entry %s of the original table' % (k,))
                     break
-            rv = res.attrs.get('values')
+            try:
+                rv = w.ip.get_attr(res, 'values', None)
+            except Raised:
+                rv = None
             rc = {(a, b): x for a, row in rv.attrs['items'].items() for b, x in row.attrs['items'].items()}
             for k, v in rc.items():
                 if is_none(v):
